@@ -19,7 +19,7 @@ from spacepackets.cfdp import (
     TransactionId,
     TransmissionMode,
 )
-from spacepackets.cfdp.defs import ChecksumType
+from spacepackets.cfdp.defs import NULL_CHECKSUM_U32, ChecksumType
 from spacepackets.cfdp.pdu import (
     AbstractFileDirectiveBase,
     AckPdu,
@@ -993,6 +993,9 @@ class SourceHandler:
 
     def _checksum_calculation(self, size_to_calculate: int) -> bytes:
         assert self._put_req is not None
+        if self._params.fp.metadata_only:
+            # No file is transferred, for example when a metadata only transaction is cancelled.
+            return NULL_CHECKSUM_U32
         assert self._put_req.source_file is not None
         assert self._params.remote_cfg is not None
 
